@@ -34,10 +34,10 @@ pub fn generate(s: &mut Session, tier: &str, rng: &mut Rng) {
         s.count("skipped:tls-wss(no certificate)");
     }
     let all = protocol_ciphers(rng);
-    let picks: Vec<Cfg> = if thorough { all } else { all.into_iter().filter(|c| matches!((c.protocol, c.cipher, c.users.as_str()), ("shadowsocks", "aes-128-gcm", _) | ("shadowsocks", "2022-blake3-aes-256-gcm", "-") | ("shadowsocks", "2022-blake3-aes-128-gcm", _) | ("vmess", "chacha20-poly1305", _) | ("trojan", _, _))).collect() };
+    let picks: Vec<Cfg> = if thorough { all } else { all.into_iter().filter(|c| matches!((c.protocol, c.cipher, c.users.as_str()), ("shadowsocks", "aes-256-gcm", _) | ("shadowsocks", "2022-blake3-aes-256-gcm", "-") | ("shadowsocks", "2022-blake3-aes-128-gcm", _) | ("vmess", "chacha20-poly1305", _) | ("trojan", _, _))).collect() };
     let tcp_faults = ["server-junk", "server-junk-reset", "server-stall", "server-half", "ws-fail", "accept-emfile", "local-junk", "local-stall"];
     let tls_faults = ["tls-fail", "tls-stall"];
-    let udp_faults = ["server-udp-junk", "server-udp-replay", "server-udp-unresolvable", "local-udp-junk", "local-udp-short", "local-udp-unresolvable"];
+    let udp_faults = ["server-udp-junk", "server-udp-replay", "server-udp-unresolvable", "local-udp-junk", "local-udp-short", "local-udp-unresolvable", "local-udp-oversized", "server-udp-oversized-reply"];
     for (ci, base) in picks.into_iter().enumerate() {
         for t in &transports {
             // quick tier: plain tcp plus one other transport per configuration, rotating so that each is used
